@@ -330,6 +330,7 @@ class TokenizerState:
         self.parenlev = 0
         self.continued = False
         self.indents = [0]
+        self.alt_indents = [0]  # the same levels measured with tab size 1: both must order the lines alike
         self.last_line = ""
         self.line = ""
         self.pos = 0
@@ -436,14 +437,16 @@ class EndProg:
 def next_statement(state: TokenizerState) -> Generator[TokenInfo, None, bool | None]:
     if not state.line:
         return False  # break parent loop
-    column = 0
+    column = alt_column = 0
     while state.pos < state.max:  # measure leading whitespace
         if state.line[state.pos] == " ":
             column += 1
+            alt_column += 1
         elif state.line[state.pos] == "\t":
             column = (column // tabsize + 1) * tabsize
+            alt_column += 1
         elif state.line[state.pos] == "\f":
-            column = 0
+            column = alt_column = 0
         else:
             break
         state.pos += 1
@@ -473,7 +476,10 @@ def next_statement(state: TokenizerState) -> Generator[TokenInfo, None, bool | N
         return True  # continue
 
     if column > state.indents[-1]:  # count indents or dedents
+        if alt_column <= state.alt_indents[-1]:
+            raise _tab_error(state)
         state.indents.append(column)
+        state.alt_indents.append(alt_column)
         yield TokenInfo(
             Token.INDENT, state.line[: state.pos], (state.lnum, 0), (state.lnum, state.pos), state.line
         )
@@ -484,9 +490,18 @@ def next_statement(state: TokenizerState) -> Generator[TokenInfo, None, bool | N
                 ("<tokenize>", state.lnum, state.pos + 1, state.line, state.lnum, state.pos + 1),
             )
         state.indents = state.indents[:-1]
+        state.alt_indents = state.alt_indents[:-1]
 
         yield TokenInfo(Token.DEDENT, "", (state.lnum, state.pos), (state.lnum, state.pos), state.line)
+    if alt_column != state.alt_indents[-1]:
+        raise _tab_error(state)
     return None
+
+
+def _tab_error(state: TokenizerState) -> TabError:
+    # as in CPython: a line must compare the same way to the enclosing levels whether a tab is 8 columns or 1
+    args = ("<tokenize>", state.lnum, state.pos + 1, state.line, state.lnum, state.pos + 1)
+    return TabError("inconsistent use of tabs and spaces in indentation", args)
 
 
 def next_psuedo_matches(state: TokenizerState) -> TokenInfo | None:
